@@ -13,6 +13,7 @@
    does it: the entry NAME is tested for nested entries, the caller's path for the top entry. *)
 From Coq Require Import List ZArith Bool.
 Import ListNotations.
+From GU Require Import C04.Facts C04.Gen.
 
 Definition name := list Z.          (* bytes of one path component *)
 Definition path := list name.       (* components below the sandbox root; [] is the sandbox root *)
@@ -138,7 +139,7 @@ Section Removal.
    one-component path) for everything below it — removeFileWithContext hands the name down (repair of D11). *)
 Variable excl_name : name -> bool.
 Variable excl_path : path -> bool.
-Variable lstat_first : bool.
+Variable k : rm_facts.               (* the facts extracted from the source (Gen.v); expected_rm = the repaired code *)
 Variable cancelled : bool.           (* the context handed in is already done *)
 
 (* LsWithExclusionPatterns *)
@@ -155,7 +156,7 @@ Fixpoint fold_rm (rm : fsys -> path -> path -> fsys * res) (s : fsys) (p : path)
   | [] => (s, Ok)
   | n :: r =>
       if cancelled then (s, Err ECancelled) else
-      match rm s (p ++ [n]) [n] with
+      match rm s (p ++ [n]) (match nested_tested k with NName => [n] | NPath => p ++ [n] end) with
       | (s1, Ok) => fold_rm rm s1 p r
       | (s1, Err e) => (s1, Err e)
       end
@@ -177,10 +178,10 @@ Fixpoint remove (fuel : nat) (s : fsys) (p : path) (tested : path) {struct fuel}
   match fuel with
   | O => (s, Err EFuel)
   | S f =>
-      if lstat_first && is_link (lstat s p) then
+      if rm_link_first k && is_link (lstat s p) then
         (* the fix: a symbolic link is removed as a link, never followed *)
-        if cancelled then (s, Err ECancelled) else
-        if excl_path tested then (s, Ok) else os_remove s p
+        if rm_link_ctx k && cancelled then (s, Err ECancelled) else
+        if (match rm_link_excl k with TTested => excl_path tested | TDir => excl_path p | TNone => false end) then (s, Ok) else os_remove s p
       else
       if negb (exists_ s p) then (s, Ok) else
       match is_dir s p with
@@ -189,11 +190,16 @@ Fixpoint remove (fuel : nat) (s : fsys) (p : path) (tested : path) {struct fuel}
           let isEmpty := is_empty s p in
           let '(s1, r1) := if isDir && negb isEmpty then clean_dir_with (remove f) s p else (s, Ok) in
           match r1 with
-          | Err e => (s1, Err e)
+          | Err e =>
+              if rm_clean_err_first k then (s1, Err e) else
+              (* the error is overwritten by the next IsEmpty *)
+              if rm_stop_nonempty k && isDir && negb (is_empty s1 p) then (s1, Ok) else
+              if rm_final_ctx k && cancelled then (s1, Err ECancelled) else
+              if (match rm_final_excl k with TTested => excl_path tested | TDir => excl_path p | TNone => false end) then (s1, Ok) else os_remove s1 p
           | Ok =>
-              if isDir && negb (is_empty s1 p) then (s1, Ok) else    (* some entries were excluded: stop *)
-              if cancelled then (s1, Err ECancelled) else
-              if excl_path tested then (s1, Ok) else os_remove s1 p
+              if rm_stop_nonempty k && isDir && negb (is_empty s1 p) then (s1, Ok) else    (* some entries were excluded: stop *)
+              if rm_final_ctx k && cancelled then (s1, Err ECancelled) else
+              if (match rm_final_excl k with TTested => excl_path tested | TDir => excl_path p | TNone => false end) then (s1, Ok) else os_remove s1 p
           end
       end
   end.
@@ -204,14 +210,15 @@ Definition clean_dir (fuel : nat) (s : fsys) (p : path) : fsys * res := clean_di
 End Removal.
 
 Section GC.
-Variable lstat_first : bool.
+Variable k : rm_facts.
+Variable g : gc_facts.
 Variable cancelled : bool.
 Variable old : path -> bool.   (* the entry at this PHYSICAL path was last accessed longer ago than the threshold *)
 Variable ord : path -> list name -> list name.   (* the order in which the entries of a directory get processed *)
 
 (* RemoveWithContext = removal without exclusion patterns *)
 Definition remove0 (fuel : nat) (s : fsys) (p : path) : fsys * res :=
-  remove (fun _ => false) (fun _ => false) lstat_first cancelled fuel s p p.
+  remove (fun _ => false) (fun _ => false) k cancelled fuel s p p.
 
 (* garbageCollectFile: StatTimes follows links *)
 Definition gc_file (fuel : nat) (s : fsys) (p : path) : fsys * res :=
@@ -225,13 +232,13 @@ Definition gc_file (fuel : nat) (s : fsys) (p : path) : fsys * res :=
    Modelled in sequence, in an ARBITRARY order [ord] (the theorems hold for every order; interleavings below the
    granularity of one entry are not modelled); running out of fuel is not an error of the code but the model's own mark of
    non-termination, so it is the one thing that is NOT dropped. *)
-Fixpoint gc_children (g : fsys -> path -> fsys * res) (s : fsys) (p : path) (ns : list name) : fsys * bool :=
+Fixpoint gc_children (gg : fsys -> path -> fsys * res) (s : fsys) (p : path) (ns : list name) : fsys * bool :=
   match ns with
   | [] => (s, false)
   | n :: r =>
-      match g s (p ++ [n]) with
+      match gg s (p ++ [n]) with
       | (s1, Err EFuel) => (s1, true)
-      | (s1, _) => gc_children g s1 p r
+      | (s1, _) => gc_children gg s1 p r
       end
   end.
 
@@ -242,7 +249,7 @@ Fixpoint gc (fuel : nat) (s : fsys) (p : path) (deletePath : bool) {struct fuel}
   | S f =>
       if cancelled then (s, Err ECancelled) else
       if negb (exists_ s p) then (s, Ok) else
-      if lstat_first && deletePath && is_link (lstat s p) then gc_file f s p else
+      if gc_link_first g && deletePath && is_link (lstat s p) then gc_file f s p else
       match is_dir s p with
       | Some true =>
           match ls (fun _ => false) s p with
@@ -286,6 +293,10 @@ Definition force_remove (s : fsys) (p : path) : fsys * res :=
   | Some q => (filter (fun ke => negb (is_prefix q (fst ke))) s, Ok)
   | None => (s, Err ENotFound)
   end.
+
+(* ForceRemoveIfPossible of the extended OS file system, as far as the generated facts say *)
+Definition library_force (pk : priv_facts) : fsys -> path -> fsys * res :=
+  if pv_force_passes_path pk then force_remove else (fun s _ => (s, Ok)).   (* rm -r -f without operand: nothing, exit 0 *)
 
 Section Privileges.
 (* the two ordinary attempts (RemoveWithContext).  They may fail for reasons the file-system model does not know
@@ -385,16 +396,16 @@ Definition run_case (c : case) : fsys * res :=
   let en := name_excluded (c_pats c) in
   let ep := path_excluded (c_pats c) in
   match c_op c with
-  | OpRm => remove_top en ep true (c_cancelled c) fuel (c_before c) (c_root c)
-  | OpClean => clean_dir en ep true (c_cancelled c) fuel (c_before c) (c_root c)
-  | OpGc => garbage_collect true (c_cancelled c)
+  | OpRm => remove_top en ep Gen.rm (c_cancelled c) fuel (c_before c) (c_root c)
+  | OpClean => clean_dir en ep Gen.rm (c_cancelled c) fuel (c_before c) (c_root c)
+  | OpGc => garbage_collect Gen.rm Gen.gc (c_cancelled c)
               (fun q => c_all_old c || existsb (path_eqb q) (c_old c)) (fun _ ns => ns) fuel (c_before c) (c_root c)
   end.
 
 (* the same call with the entries of every directory processed in the opposite order *)
 Definition run_case_rev (c : case) : fsys * res :=
   match c_op c with
-  | OpGc => garbage_collect true (c_cancelled c)
+  | OpGc => garbage_collect Gen.rm Gen.gc (c_cancelled c)
               (fun q => c_all_old c || existsb (path_eqb q) (c_old c)) (fun _ ns => rev ns)
               (S (S (length (c_before c)))) (c_before c) (c_root c)
   | _ => run_case c
